@@ -70,28 +70,30 @@ def optIn (x : Option Name) (vis : List Name) : Bool :=
   | none => true
   | some n => vis.contains n
 
+def nodupB : List Name → Bool
+  | [] => true
+  | x :: xs => !xs.contains x && nodupB xs
+
 mutual
 /-- Scoped definition-before-use: `vis` = names visible so far (this scope and all outer
-ones).  A subgraph output must be produced by a node *of that subgraph*. -/
+ones).  A subgraph output must be produced by a node *of that subgraph*, and the outputs of a
+subgraph are pairwise distinct. -/
 def wfNode (vis : List Name) : Node → Bool
   | .op _ _ ins _ _ => ins.all (fun i => optIn i vis)
   | .ifN c outs tn to en eo =>
     vis.contains c && wfNodes vis tn && allIn to (topDefs tn)
       && wfNodes vis en && allIn eo (topDefs en)
       && (to.length == outs.length) && (eo.length == outs.length)
+      && nodupB to && nodupB eo
   | .loop b c inits outs bi bn bo =>
     optIn b vis && optIn c vis && allIn inits vis
       && wfNodes (bi ++ vis) bn && allIn bo (topDefs bn)
       && (bi.length == inits.length + 2) && (bo.length == inits.length + 1)
-      && (outs.length == inits.length)
+      && (outs.length == inits.length) && nodupB bo
 def wfNodes (vis : List Name) : List Node → Bool
   | [] => true
   | n :: ns => wfNode vis n && wfNodes (n.outs ++ vis) ns
 end
-
-def nodupB : List Name → Bool
-  | [] => true
-  | x :: xs => !xs.contains x && nodupB xs
 
 /-- The whole emitted function body is well-formed:
 * every name (inputs, node outputs, subgraph inputs — at every depth) is defined exactly once
